@@ -351,4 +351,4 @@ func (e *Engine) intrinsicFor(fn *ssa.Function) (string, bool) {
 }
 
 var vapiPrims = map[string]bool{"U64": true, "Assume": true, "Check": true, "Fail": true, "Reach": true, "Choice": true,
-	"Setting": true, "Concrete": true, "Engine": true, "Note": true, "Advance": true, "NowNs": true, "And": true, "Or": true, "Quiesce": true, "Has": true}
+	"Setting": true, "Concrete": true, "Engine": true, "Note": true, "Advance": true, "NowNs": true, "And": true, "Or": true, "Quiesce": true, "Has": true, "Ite": true}
